@@ -382,7 +382,7 @@ def FirstRule (r : Rules) (s : Nat) (m : Update) : Prop :=
 /-- `m` directly follows the message whose last id is `prevU`. -/
 def NextRule (r : Rules) (prevU : Nat) (m : Update) : Prop :=
   match r with
-  | .spot => m.firstUpdateId = prevU
+  | .spot => m.firstUpdateId = prevU + 1
   | .futures => m.prevLastUpdateId = prevU
 
 instance (r : Rules) (last : Nat) (m : Update) : Decidable (Stale r last m) := by
